@@ -36,6 +36,11 @@ def run(tier, seed, pid=PID):
         c, m = daemon.random_script(rnd, ntasks=rnd.choice([2, 3, 3, 6]) if big else 3, horizon=14, steps=rnd.choice([25, 40, 70]), big=big,
                                     maxsims=(0, 0, 1, 2, 3) if pid == 'C12' else (0, 0, 0, 1, 2))
         rs.append((c, m, None))
+    # plus tasks whose occurrences are plain dates, with a clock that moves in hours and days
+    nall = 3000 if tier == 'thorough' else 300
+    for k in range(nall):
+        c, m = daemon.allday_script(rnd, ntasks=rnd.choice([1, 2, 3]))
+        rs.append((c, m, None))
     allscripts = scripts + rs
     recs = daemon.run_many(drv, [(c, m) for c, m, _ in allscripts], wd)
     trace = f'{wd}/daemon.ndjson'
@@ -61,7 +66,7 @@ def run(tier, seed, pid=PID):
            'evaluations': v['n'], 'distinct_nontrivial': len(set('\n'.join(c) for c, _, _ in allscripts)),
            'rule': 'one case = one run of the real daemon code (src/echsd.c included unmodified, virtual clock, explicit bag of pending callbacks): a script of requests, clock ticks, reify, delivery choices and child exits. Model part: paths through the state graph of the small Echsd configuration that together traverse its transitions; random part: 2..6 tasks, late wake-ups, equal seconds, replaces and cancels while runs are alive',
            'model_graph_states': g['states'], 'model_graph_edges': nedges, 'model_cover_scripts_total': total_scripts, 'model_scripts_run': nmodel,
-           'model_edges_replayed': ncov if tier == 'thorough' else 'part (%d of %d cover scripts)' % (nmodel, total_scripts), 'random_scripts': nrand,
+           'model_edges_replayed': ncov if tier == 'thorough' else 'part (%d of %d cover scripts)' % (nmodel, total_scripts), 'random_scripts': nrand, 'all_day_scripts': nall,
            'spawns_observed': nspawn, 'not_run_spawns_observed': nnorun, 'mismatching_runs': v['nbad'], 'model_drift_runs': ndrift,
            'e1_constants': 'quick: 2 tasks, occurrence lists {<<1>>,<<1,1>>,<<1,2>>}, limits {unset,1}, clock 0..4, 1 replace/cancel; thorough: 5 lists incl. <<0,3>> and <<1,2,3>>, limits {unset,1,2}, clock 0..6',
            'e1_actions': e1['coverage'], 'exhaustive': tier == 'thorough'}
